@@ -773,7 +773,38 @@ def class_cases(run, per_class, mutations, late):
         if name == 'DnsRecordDnskey':
             kt.append({'kind': 'kt', 'data': hx(data), 'tag': 'edge'})
     more, more_kt = raw_cases(run, 60 if per_class <= 40 else 600, seen)
-    return cases + more, kt + more_kt, objs
+    return cases + more, kt + more_kt + carry_cases(run.rng, 40 if per_class <= 40 else 600), objs
+
+
+def carry_cases(rng, n):
+    """DNSKEY RDATA (even length) aimed at the final fold of RFC 4034 Appendix B: the 16-bit word sum S is placed where
+    (S & 0xffff) + (S >> 16) lands on 0xfffe, 0xffff, 0x10000, 0x10001 - an end-around-carry implementation (Internet
+    checksum style) and the RFC's single add-and-truncate differ exactly at and above 0x10000"""
+    out = []
+    layouts = [(15, 32), (13, 64), (14, 96), (8, 3 + 64), (8, 3 + 128), (10, 3 + 256), (16, 56)]
+    for _ in range(n):
+        alg, klen = rng.choice(layouts)
+        flags = rng.choice([0x0100, 0x0101, 0x0180, 0x0000, 0xffff])
+        head = flags.to_bytes(2, 'big') + bytes([3, alg])
+        if alg in (8, 10):
+            body = bytes([1, 3]) + bytes(rng.choice([0xff, 0xfe, rng.getrandbits(8)]) for _ in range(klen - 2))
+        else:
+            body = bytes(rng.choice([0xff, 0xff, 0xfe, rng.getrandbits(8)]) for _ in range(klen))
+        data = bytearray(head + body)
+        if len(data) % 2:
+            data.append(0xff)
+        base = bytes(data[:-2])
+        s0 = 0
+        for i, b in enumerate(base):
+            s0 += b if (i & 1) else (b << 8)
+        for target in (0xfffe, 0xffff, 0x10000, 0x10001, 0x1fffe):
+            # choose the last word w so that ((s0 + w) & 0xffff) + ((s0 + w) >> 16) == target, if possible
+            for w in range(0x10000):
+                t = s0 + w
+                if (t & 0xffff) + (t >> 16) == target:
+                    out.append({'kind': 'kt', 'data': hx(base + w.to_bytes(2, 'big')), 'tag': 'carry'})
+                    break
+    return out
 
 
 def run(run, driver_ok=True, deep=False):  # pylint: disable=redefined-outer-name
